@@ -1,17 +1,26 @@
 import QibModel.GQ
+import QibModel.Pauli
 /-!
 Model of `algorithms/vqe` (C20), Mathlib-free, on exact Gaussian rationals.
 
 * `expect ψ P` mirrors `measure_expectation_statevector`: `(state.conj().T @ M) @ state`, i.e. first the
   row vector `vⱼ = Σᵢ conj ψᵢ · Pᵢⱼ`, then `Σⱼ vⱼ · ψⱼ`. NumPy refuses the product when the length of the
   state differs from the matrix dimension; the model refuses the same inputs (`Except`).
-* `quccGenerator T = T − Tᴴ` is the argument handed to `scipy.linalg.expm` in `qUCC.as_matrix`
-  (`T_mat - T_mat.conjugate().T`); the exponential itself is not computable in exact arithmetic and is
-  covered by the theorems of `QibProofs/Properties/C20.lean` (every such exponential is unitary).
-* `numberOp L` is the total particle-number operator `Σₖ a†ₖ aₖ` after the Jordan–Wigner encoding:
-  `a†ₖ aₖ ↦ (1 − Zₖ)/2`, a diagonal matrix whose entry at basis index `b` is bit `k` of `b`; the sum over all
-  `k` is the number of set bits of `b` and therefore does not depend on the bit order (most/least
-  significant site first) used by `PauliString.as_matrix`.
+  `expectPauli ψ op` is the same call on a `PauliOperator` given as (string, weight) list: the matrix is
+  assembled from the entries of the Pauli model (`QibModel/Pauli.lean`, bridged to `PS.mat` in C09); the
+  empty operator has the integer `0` as "matrix" and `.toarray()` fails on it (`AttributeError`).
+* `cre L i` / `ann L i` are the Jordan–Wigner ladder matrices exactly as `FieldOperator.as_matrix` builds
+  them: `kron(I,…,I, U, Z,…,Z)` with `U = |1⟩⟨0|` at site `i` (site 0 = slowest index) and
+  `a = (a†).conj().T`; `termMat L kinds coeffs` is the matrix of one `FieldOperatorTerm`
+  (`nditer` order = row-major multi-index, zero coefficients skipped, product left to right starting from the
+  identity). The code path of `qUCC.as_matrix` reaches this matrix through
+  `jordan_wigner_encode_field_operator(...).as_matrix()`; that the encoding reproduces the matrix is
+  property C11, and the correspondence of C20 compares the two exactly on every sample.
+* `quccTerms L exc params` = the list of cluster matrices `T` (`[T₁]`, `[T₂]`, or `[T₁, T₂]` for `"sd"`)
+  including the constructor's / `as_matrix`' rejections; `quccGenerator T = T − Tᴴ` is the argument handed to
+  `scipy.linalg.expm`; the exponential itself is not computable in exact arithmetic and is covered by the
+  theorems of `QibProofs/Properties/C20.lean` (every such exponential is unitary and conserves `N`).
+* `numberOp L` is the total particle-number operator `Σₖ a†ₖ aₖ`: diagonal, entry = number of set site bits.
 -/
 namespace Qib.Vqe
 open Qib
@@ -19,8 +28,12 @@ open Qib
 /-- entrywise difference (left operand fixes the shape, like the other `Mat` operations) -/
 def sub (A B : Mat) : Mat := Mat.ofFn A.n A.m fun i j => A.get i j - B.get i j
 
+def zeros (n m : Nat) : Mat := Mat.ofFn n m fun _ _ => 0
+
 /-- `Σ_{k<n} f k`, summed in index order -/
 def sumRange (n : Nat) (f : Nat → GQ) : GQ := (List.range n).foldl (fun acc k => acc + f k) 0
+
+/-! ### expectation value -/
 
 /-- `state.conj().T @ M`: the row vector `vⱼ = Σᵢ conj ψᵢ · Pᵢⱼ` -/
 def conjRow (ψ : Array GQ) (P : Mat) : Array GQ :=
@@ -34,26 +47,109 @@ def expectRaw (ψ : Array GQ) (P : Mat) : GQ :=
 /-- `measure_expectation_statevector`: NumPy's `@` raises `ValueError` unless `len(state) = M.shape[0]`
 (first product) and `M.shape[1] = len(state)` (second product). -/
 def expect (ψ : Array GQ) (P : Mat) : Except String GQ :=
-  if ψ.size ≠ P.n then .error "ValueError: matmul shape mismatch (state vs. rows)"
-  else if P.m ≠ ψ.size then .error "ValueError: matmul shape mismatch (columns vs. state)"
+  if ψ.size ≠ P.n then .error "ValueError"
+  else if P.m ≠ ψ.size then .error "ValueError"
   else .ok (expectRaw ψ P)
 
 /-- the property's reference value `Σᵢⱼ conj ψᵢ · Pᵢⱼ · ψⱼ` (double sum, conjugate on the LEFT factor) -/
 def expectSpec (ψ : Array GQ) (P : Mat) : GQ :=
   sumRange ψ.size fun i => sumRange ψ.size fun j => (ψ.getD i 0).conj * P.get i j * ψ.getD j 0
 
+/-! ### Pauli operators as dense matrices -/
+
+def gqOfPauli (g : Qib.Pauli.GQ) : GQ := ⟨g.re, g.im⟩
+def gqOfInts (p : Int × Int) : GQ := ⟨(p.1 : Rat), (p.2 : Rat)⟩
+
+/-- `Σ weight · as_matrix(string)` at flat indices (site 0 most significant) -/
+def pauliEntry (op : Qib.Pauli.PauliOp Qib.Pauli.GQ) (r c : Nat) : GQ :=
+  op.foldl (fun acc e => acc + gqOfPauli e.2 * gqOfInts (e.1.matEntry r c)) 0
+
+def pauliMat (n : Nat) (op : Qib.Pauli.PauliOp Qib.Pauli.GQ) : Mat :=
+  Mat.ofFn (2 ^ n) (2 ^ n) (pauliEntry op)
+
+/-- `measure_expectation_statevector(pauli_op, state)`; `PauliOperator.as_matrix()` of the empty operator is
+the integer 0, on which `.toarray()` raises `AttributeError` -/
+def expectPauli (ψ : Array GQ) (op : Qib.Pauli.PauliOp Qib.Pauli.GQ) : Except String GQ :=
+  match op with
+  | [] => .error "AttributeError"
+  | (P, _) :: _ => expect ψ (pauliMat P.z.length op)
+
+/-! ### Jordan–Wigner ladder matrices and field-operator terms -/
+
+/-- site factor of the creation operator on site `i`: `I` (k < i), `U = [[0,0],[1,0]]` (k = i), `Z` (k > i) -/
+def creSite (i k : Nat) (r c : Bool) : Int :=
+  if k < i then (if r = c then 1 else 0)
+  else if k = i then (if r && !c then 1 else 0)
+  else (if r = c then (if r then -1 else 1) else 0)
+
+/-- entry of `kron(…kron(kron(1, A₀), A₁)…, A_{L-1})` with the site factors above -/
+def creEntry (L i r c : Nat) : Int :=
+  ((List.range L).map fun k => creSite i k (Qib.Pauli.bitAt L k r) (Qib.Pauli.bitAt L k c)).prod
+
+/-- `clist[i]` -/
+def cre (L i : Nat) : Mat := Mat.ofFn (2 ^ L) (2 ^ L) fun r c => gqOfInts (creEntry L i r c, 0)
+
+/-- `alist[i] = clist[i].conj().T` -/
+def ann (L i : Nat) : Mat := (cre L i).adjoint
+
+def ladder (L : Nat) (create : Bool) (i : Nat) : Mat := if create then cre L i else ann L i
+
+/-- the `k` digits of `idx` in base `L`, most significant first (`nditer` multi-index of a `(L,…,L)` array) -/
+def multiIndex (L : Nat) : Nat → Nat → List Nat
+  | 0, _ => []
+  | k + 1, idx => (idx / L ^ k) % L :: multiIndex L k idx
+
+/-- `fstring = identity @ op₀ @ op₁ @ …` -/
+def fstring (L : Nat) (kinds : List Bool) (js : List Nat) : Mat :=
+  (List.zip kinds js).foldl (fun acc p => acc.mul (ladder L p.1 p.2)) (Mat.one (2 ^ L))
+
+/-- one accumulation step `op += coeff * fstring` (skipped for a zero coefficient) -/
+def termStep (L : Nat) (kinds : List Bool) (coeffs : Array GQ) (acc : Mat) (idx : Nat) : Mat :=
+  let c := coeffs.getD idx 0
+  if c = 0 then acc else acc.add (Mat.smul c (fstring L kinds (multiIndex L kinds.length idx)))
+
+/-- matrix of `FieldOperator([FieldOperatorTerm(opdesc, coeffs)])`, `coeffs` flattened row-major -/
+def termMat (L : Nat) (kinds : List Bool) (coeffs : Array GQ) : Mat :=
+  (List.range (L ^ kinds.length)).foldl (termStep L kinds coeffs) (zeros (2 ^ L) (2 ^ L))
+
+/-! ### the ansatz -/
+
+inductive Exc where
+  | s | d | sd
+  deriving DecidableEq, Repr
+
+/-- constructor check on `excitations`: only `"s"`, `"d"`, `"sd"` are accepted -/
+def parseExc (s : String) : Except String Exc :=
+  if s = "s" then .ok .s else if s = "d" then .ok .d else if s = "sd" then .ok .sd else .error "ValueError"
+
+def numParameters (L : Nat) : Exc → Nat
+  | .s => L ^ 2
+  | .d => L ^ 4
+  | .sd => L ^ 2 + L ^ 4
+
+def kindsS : List Bool := [true, false]
+def kindsD : List Bool := [true, true, false, false]
+
+/-- the cluster matrices `T` of `qUCC.as_matrix(params)` in the order in which their exponentials are multiplied;
+a wrong number of parameters is rejected with `ValueError` -/
+def quccTerms (L : Nat) (exc : Exc) (params : Array GQ) : Except String (List Mat) :=
+  if params.size ≠ numParameters L exc then .error "ValueError" else
+  match exc with
+  | .s => .ok [termMat L kindsS params]
+  | .d => .ok [termMat L kindsD params]
+  | .sd => .ok [termMat L kindsS (params.extract 0 (L ^ 2)), termMat L kindsD (params.extract (L ^ 2) params.size)]
+
 /-- exponent of the coupled-cluster ansatz: `T_mat - T_mat.conjugate().T` -/
 def quccGenerator (T : Mat) : Mat := sub T T.adjoint
 
-/-- number of set bits -/
-def popcount : Nat → Nat
-  | 0 => 0
-  | n + 1 => (n + 1) % 2 + popcount ((n + 1) / 2)
-decreasing_by omega
+/-! ### particle number -/
 
-/-- total particle number on `L` Jordan–Wigner sites: `diag(popcount b)`, `b < 2^L` -/
+/-- number of occupied sites of the basis state with flat index `b` on `L` sites -/
+def bitCount (L b : Nat) : Nat := ((List.range L).map fun k => (Qib.Pauli.bitAt L k b).toNat).sum
+
+/-- total particle number on `L` Jordan–Wigner sites: `Σₖ a†ₖ aₖ = diag(bitCount b)`, `b < 2^L` -/
 def numberOp (L : Nat) : Mat :=
-  Mat.ofFn (2 ^ L) (2 ^ L) fun i j => if i = j then GQ.ofRat (popcount i : Nat) else 0
+  Mat.ofFn (2 ^ L) (2 ^ L) fun i j => if i = j then GQ.ofRat (bitCount L i : Nat) else 0
 
 def commutator (A B : Mat) : Mat := sub (A.mul B) (B.mul A)
 
@@ -65,8 +161,5 @@ def isSkewAdjoint (G : Mat) : Bool := G.n == G.m && G.adjoint.beq G.neg
 /-- `[N, G] = 0` for the number operator of matching size (`G` must be `2^L × 2^L`) -/
 def commutesWithN (L : Nat) (G : Mat) : Bool :=
   G.n == 2 ^ L && G.m == 2 ^ L && isZero (commutator (numberOp L) G)
-
-/-- `Σ |zᵢⱼ|²`, used to compare a commutator against a tolerance when the entries carry float rounding -/
-def normSq (A : Mat) : Rat := A.data.foldl (fun acc z => acc + (z.re * z.re + z.im * z.im)) 0
 
 end Qib.Vqe
